@@ -103,6 +103,10 @@ func monC13(o *TypeOps, c Config, r *Rep) {
 		r.Res.Skipped = "no ordering helper"
 		return
 	}
+	if _, nat := natLess(reflect.New(o.T).Elem(), reflect.New(o.T).Elem()); o.Compare == nil && !nat {
+		r.Res.Skipped = "no derived Compare registered for this element type in this package (dropped as a duplicate of an assignable type)"
+		return
+	}
 	g := NewGen(itemSeed(c.Seed, o.ID))
 	poolv := g.Pool(o.T, c.PoolN)
 	cmp := func(a, b reflect.Value) int {
